@@ -54,6 +54,30 @@ def generators(rng, n_feat):
     return out
 
 
+NP_RBF = {
+    'exponential': lambda r: np.exp(-r),
+    'gaussian': lambda r: np.exp(-r ** 2),
+    'multiquadric': lambda r: np.sqrt(1 + r ** 2),
+    'inverse_quadratic': lambda r: 1 / (1 + r ** 2),
+    'inverse_multiquadric': lambda r: 1 / np.sqrt(1 + r ** 2),
+    'thin_plate': lambda r: r ** 2 * np.log(r),
+    'bump_function': lambda r: np.where(r < 1, np.exp(-1 / (1 - np.minimum(r, 1 - 1e-300) ** 2)), 0.0),
+}
+
+
+def oracle_rbf(tag, X, Xt, Cn):
+    """the property statement: the appended features are R(shape * ||[x;u] - c|| + offset) for the named R; offset None
+    means 0 except for thin_plate (1e-3)"""
+    off = tag['offset'] if tag['offset'] is not None else (1e-3 if tag['rbf'] == 'thin_plate' else 0.0)
+    r = tag['shape'] * np.linalg.norm(X[:, None, :] - Cn[None, :, :], axis=-1) + off
+    with np.errstate(all='ignore'):
+        want = np.hstack((X, NP_RBF[tag['rbf']](r)))
+    if Xt.shape != want.shape or not np.allclose(Xt, want, rtol=1e-10, atol=1e-13, equal_nan=True):
+        return (f"RbfLiftingFn(rbf={tag['rbf']!r}, shape={tag['shape']}, offset={tag['offset']}): appended features are not "
+                f"R(shape*||[x;u]-c|| + offset) (max deviation {np.nanmax(np.abs(Xt - want)):.3g})")
+    return None
+
+
 def independence_probe(rng, seed_type):
     """random generators must not couple different features through a shared seed"""
     rs = np.random.RandomState(rng.randint(0, 2 ** 31 - 1))
@@ -125,16 +149,24 @@ def run(ctx):
         nx, nu = rng.randint(1, 3), rng.randint(0, 2)
         rs = np.random.RandomState(rng.randint(0, 2 ** 31 - 1))
         X = rs.uniform(-1.5, 1.5, (rng.randint(3, 6), nx + nu))
-        name = rng.choice(RBFS)
+        if i < 3 * len(RBFS):           # systematic sweep first: every named function x {None, 0, positive} offset
+            name = RBFS[i % len(RBFS)]
+            offset = [None, 0, 0.25][i // len(RBFS)]
+        else:
+            name = rng.choice(RBFS)
+            offset = rng.choice([None, None, 0.0, 0, 0.25])
         shape = rng.choice([0.5, 1.0, 2.0])
-        offset = rng.choice([None, None, 0.0, 0.25])
         Cn = rs.uniform(-1.5, 1.5, (rng.choice([1, 2, 4]), nx + nu))
         lf = pykoop.RbfLiftingFn(rbf=name, centers=pykoop.DataCenters(centers=Cn), shape=shape, offset=offset)
         lf.fit(X, n_inputs=nu)
         Xt = lf.transform(X)
         off = 'default' if offset is None else bits(offset)
         lines.append(f"rbf {name} {bits(shape)} {off} {fmat(Cn)} {fmat(X)}")
-        meta.append(('rbf', lf, (X, Xt), {'rbf': name, 'shape': shape, 'offset': offset, 'nx': nx, 'nu': nu}))
+        tag_r = {'rbf': name, 'shape': shape, 'offset': offset, 'nx': nx, 'nu': nu}
+        meta.append(('rbf', lf, (X, Xt), tag_r))
+        why = oracle_rbf(tag_r, X, Xt, Cn)
+        if why:
+            ctx.fail(why, dict(tag_r, X=X.tolist(), centers=Cn.tolist()), {'part': 'rbf_formula', 'rbf': name})
         want = (nx + Cn.shape[0], 0) if nu == 0 else (nx, nu + Cn.shape[0])
         if (lf.n_states_out_, lf.n_inputs_out_) != want:
             ctx.fail('RBF features are not declared in the block C02 says', {'nx': nx, 'nu': nu}, {'part': 'layout'})
